@@ -10,6 +10,7 @@ import (
 	"encoding/json"
 	"fmt"
 	"math/rand"
+	"sort"
 	"strconv"
 	"strings"
 	"sync"
@@ -315,6 +316,13 @@ func RunC19(run *vk.Run) {
 		md := msgs[c.Root][0].ProtoReflect().Descriptor()
 		for variant := 0; variant < 3; variant++ {
 			text := render(c.Toks, variant+i)
+			if typingError[c.Status] && len(c.Toks) > 0 && c.Toks[len(c.Toks)-1].K != "ident" {
+				// the model stops at the offending index token; close the bracket so that a parser that
+				// wrongly accepts the token can finish
+				if p2, e2 := parsepath.ParsePath(md, text+"]"); e2 == nil && p2 != nil {
+					text += "]"
+				}
+			}
 			var path protopath.Path
 			var perr error
 			pan, to := guarded(func() { path, perr = parsepath.ParsePath(md, text) })
@@ -328,7 +336,9 @@ func RunC19(run *vk.Run) {
 				continue
 			}
 			wantOK := c.Status == "ok" && c.Terminal
-			if (perr == nil) != wantOK {
+			if perr == nil && typingError[c.Status] {
+				run.Violation("parse-accepts-ill-typed:"+c.Status, fmt.Sprintf("ParsePath(%s, %q) accepts a path that addresses nothing in the message type (%s): a key or index outside the type's range, or a field the type does not have", c.Root, text, c.Status), rep)
+			} else if (perr == nil) != wantOK {
 				mu.Lock()
 				drift++
 				if drift <= 5 {
@@ -387,6 +397,10 @@ func RunC19(run *vk.Run) {
 	run.Rule = fmt.Sprintf("every token sequence of length <= %d over the abstract alphabet that the parser model can be fed (it stops at the first error) for both root types is rendered to text in up to three spellings and given to the real ParsePath; produced paths are compared step by step and evaluated on three messages per type against an independent reflective walk; plus byte renderings of payload / signature / bytes fields in every form and seeded arbitrary byte strings under a watchdog", n)
 }
 
+// typingError: parser-model statuses that say the path cannot address anything in the type.
+var typingError = map[string]bool{"err:keykind": true, "err:listindex": true, "err:negative": true, "err:nofield": true, "err:needindex": true,
+	"err:notmessage": true, "err:notrepeated": true, "err:mapinternal": true, "err:notfield": true}
+
 func hasStr(ts []tok) bool {
 	for _, t := range ts {
 		if t.K == "str" {
@@ -414,6 +428,34 @@ func checkRenderings(run *vk.Run) {
 	g := sampleGolden(true)
 	g.Cert = m.SignCert.Raw
 	e := rp.Endorse(g, m.S)
+	// a valid but non-canonical serialisation of the same document (digest field moved to the end,
+	// map entries in descending key order): the renderings must still be the exact stored bytes
+	{
+		nd := proto.Clone(g).(*epb.VMGoldenMeasurement)
+		nd.Digest = nil
+		ms := nd.SevSnp.Measurements
+		nd.SevSnp = proto.Clone(nd.SevSnp).(*epb.VMSevSnp)
+		nd.SevSnp.Measurements = nil
+		head, _ := proto.MarshalOptions{Deterministic: true}.Marshal(nd)
+		var keys []uint32
+		for k := range ms {
+			keys = append(keys, k)
+		}
+		sort.Slice(keys, func(i, j int) bool { return keys[i] > keys[j] })
+		var tailB []byte
+		for _, k := range keys {
+			one, _ := proto.Marshal(&epb.VMGoldenMeasurement{SevSnp: &epb.VMSevSnp{Measurements: map[uint32][]byte{k: ms[k]}}})
+			tailB = append(tailB, one...)
+		}
+		dg, _ := proto.Marshal(&epb.VMGoldenMeasurement{Digest: g.Digest})
+		payload := append(append(head, tailB...), dg...)
+		chk := &epb.VMGoldenMeasurement{}
+		if err := proto.Unmarshal(payload, chk); err != nil || !proto.Equal(chk, g) {
+			run.Infra(fmt.Errorf("fixture: non-canonical payload does not decode to the same document (%v)", err))
+			return
+		}
+		e = &epb.VMLaunchEndorsement{SerializedUefiGolden: payload, Signature: rp.SignPSS(m.S, payload)}
+	}
 	decode := func(form gtb.BytesForm, out []byte) ([]byte, error) {
 		switch form {
 		case gtb.BytesHex:
